@@ -46,6 +46,14 @@ def run(tier, seed):
         if not recs:
             raise vlib.ToolError("no behaviours exported by " + cfg)
         behaviours += [to_behaviour(len(behaviours) + i, x) for i, x in enumerate(recs)]
+    if tier == "thorough":
+        # long random programs (up to 12 steps) by simulation
+        r = vlib.tlc("MC_C12", "MC_C12_sim", workers=4, simulate=20000, depth=80, seed=seed, timeout=1500)
+        if not r["ok"]:
+            raise vlib.ToolError("simulation failed: %s" % r["error"])
+        recs = r["records"].get("REPLAY", [])
+        res.extra["simulated_long_programs"] = len(recs)
+        behaviours += [to_behaviour(len(behaviours) + i, x) for i, x in enumerate(recs)]
     summary, mism = scriptlib.replay_scripts(PROP, behaviours)
     res.behaviours_replayed = summary["behaviours"] - len(mism)
     res.evaluations = summary["evaluations"]
